@@ -1,6 +1,6 @@
 //! data query expressions parser.
 use crate::debugger::variable::dqe::{Dqe, Literal, LiteralOrWildcard, PointerCast, Selector};
-use crate::ui::command::parser::{hex, rust_identifier};
+use crate::ui::command::parser::{hex, rust_identifier, uint};
 use chumsky::Parser;
 use chumsky::prelude::*;
 use std::collections::HashMap;
@@ -46,13 +46,15 @@ pub fn literal<'a>() -> impl Parser<'a, &'a str, Literal, Err<'a>> + Clone {
     recursive(|literal| {
         let int = just("-")
             .or_not()
-            .then(text::int(10).from_str::<u64>().unwrapped())
-            .map(|(sign, val)| {
-                Literal::Int(if sign.is_some() {
-                    -(val as i64)
+            .then(uint::<u64>())
+            .try_map(|(sign, val), span| {
+                let int = if sign.is_some() {
+                    0i64.checked_sub_unsigned(val)
                 } else {
-                    val as i64
-                })
+                    i64::try_from(val).ok()
+                };
+                int.map(Literal::Int)
+                    .ok_or_else(|| Rich::custom(span, "integer literal is out of range"))
             });
 
         let float = just("-")
@@ -155,12 +157,10 @@ pub fn parser<'a>() -> impl Parser<'a, &'a str, Dqe, Err<'a>> {
             })
             .boxed();
 
-        let mb_usize = text::int(10)
-            .or_not()
-            .padded()
-            .map(|v: Option<&str>| v.map(|v| v.parse::<usize>().unwrap()));
+        let mb_usize = uint::<usize>().or_not().padded();
 
         let slice_op = mb_usize
+            .clone()
             .then_ignore(just("..").padded())
             .then(mb_usize)
             .labelled("slice range (start..end)")
